@@ -118,6 +118,15 @@ Theorem C03_construct_interleave_fit : forall s h c z d,
 Proof. intros. rewrite construct_interleave_fit by assumption. reflexivity. Qed.
 Print Assumptions C03_construct_interleave_fit.
 
+(* the JIT cache (warm flag) carries what populated it; a seeded fit does not depend on it: same result from a cold cache,
+   from a cache populated by default fits, and from a cache populated by any developer profile, in this or an earlier
+   process.  The model may say so because of C03_fitting_writes_no_process_global_state below (numba freezes
+   module-level values into the cached code; nobody on a fit path assigns one). *)
+Theorem C03_fit_independent_of_jit_cache : forall o p1 p2 t1 t2 c1 c2 h1 h2, seeded o = true -> thread_sensitive o = false ->
+  out (run (init_cache p1 t1 c1) (h1 ++ [o])) = out (run (init_cache p2 t2 c2) (h2 ++ [o])).
+Proof. intros. apply history_independent; assumption. Qed.
+Print Assumptions C03_fit_independent_of_jit_cache.
+
 (* global state: a seeded fit does not move numpy's global generator; nothing ever writes the shared default list *)
 Theorem C03_seeded_fit_keeps_global_rng : forall s o, rng_clean o = true -> g_rng (fst (step s o)) = g_rng s.
 Proof. exact clean_keeps_rng. Qed.
@@ -177,6 +186,21 @@ Theorem C03_no_shared_mutable_default :
 Proof. vm_compute. reflexivity. Qed.
 Print Assumptions C03_no_shared_mutable_default.
 
+(* fitting writes no process-global state: in the scanned files there is no `global` statement, no assignment or mutation
+   through an imported name (another module's attribute, a class attribute, another module's container), no mutation of
+   a module-level object from inside a function, no process-wide configuration call -- except five import-time
+   statements that write the same constants in every process (allow-list in Model/ReproFlow.v gwrite_ok) *)
+Theorem C03_fitting_writes_no_process_global_state :
+  forallb gwrite_ok global_writes = true.
+Proof. vm_compute. reflexivity. Qed.
+Print Assumptions C03_fitting_writes_no_process_global_state.
+
+(* what the rule rejects: a setting wired through a module global inside _fit (numba bakes it into the on-disk cache) *)
+Example C03_global_write_in_fit_is_rejected :
+  gwrite_ok {| w_file := "opendsm/eemeter/models/daily/model.py"; w_scope := "DailyModel._fit"; w_kind := GImported;
+               w_target := "adaptive_loss.LOSS_ALPHA_MIN" |} = false.
+Proof. vm_compute. reflexivity. Qed.
+
 (* the seed is written onto the settings object's OWN nested objects: every nested settings default is built per
    instance (default_factory or copied), never one shared instance; checked on two really constructed objects *)
 Theorem C03_nested_settings_are_per_instance :
@@ -229,6 +253,14 @@ Example C03_nonvacuous_interleaving :
   out (run (init 1 1) (NewHourly ex_cfg (Some 1) :: h ++ [FitObj 0 5])) <>
   out (run (init 1 1) (NewHourly ex_cfg (Some 1) :: [NewHourly ex_cfg (Some 3); FitObj 1 5])).
 Proof. vm_compute. repeat split; try reflexivity. discriminate. Qed.
+
+(* a cold cache is populated by the FIRST daily fit (here a developer profile, cfg 7); the default fit that follows, and the
+   default fit of a later process that starts on that cache, return what a fit on a default-populated cache returns *)
+Example C03_nonvacuous_jit_cache :
+  g_jit (fst (run (init_cache 1 1 []) [FitDaily 1 7; FitDaily 2 0])) = [(Daily, 7)] /\
+  out (run (init_cache 1 1 []) [FitDaily 1 7; FitDaily 2 0]) = out (run (init_cache 2 1 [(Daily, 7)]) [FitDaily 2 0]) /\
+  out (run (init_cache 2 1 [(Daily, 7)]) [FitDaily 2 0]) = out (run (init_cache 3 1 [(Daily, 0)]) [FitDaily 2 0]).
+Proof. vm_compute. repeat split; reflexivity. Qed.
 
 Example C03_nonvacuous_batch :
   forallb seeded [FitDaily 1 0; FitBilling 2 0; FitHourly 3 ex_cfg (Some 1)] = true /\
